@@ -111,8 +111,15 @@ let run_line variant line =
     print_endline (String.concat " ; " (go init toks []))
   | _ -> print_endline "BAD-LINE"
 
+(* launch-method resolution of the constructor: "model resolve <THREAD|TASK|AUTO> <numTaskingThreads>" -> T | K *)
+let rec pos_of_int_ n = if n <= 1 then XH else if n land 1 = 1 then XI (pos_of_int_ (n lsr 1)) else XO (pos_of_int_ (n lsr 1))
+let z_of_int_ i = if i = 0 then Z0 else if i > 0 then Zpos (pos_of_int_ i) else Zneg (pos_of_int_ (- i))
+let method_of = function "THREAD" -> MThread | "TASK" -> MTask | "AUTO" -> MAuto | t -> failwith ("bad method " ^ t)
+
 let () =
   match Array.to_list Sys.argv with
+  | [_; "resolve"; m; n] ->
+    print_endline (match resolve (method_of m) (z_of_int_ (int_of_string n)) with THREAD -> "T" | TASK -> "K")
   | [_; "paths"; l; v] -> paths (launch_of l, variant_of v)
   | [_; "refute"; l] -> ignore l; print_endline (String.concat " " (List.map tok_of refuting_schedule))
   | [_; "run"; v] ->
